@@ -111,8 +111,10 @@ func c20FrameErrClass(err error) string {
 		return "decrypt"
 	case strings.Contains(m, "final frame contained plaintext"):
 		return "final-plaintext"
-	case strings.Contains(m, "trailing data"), strings.Contains(m, "did not end after final"):
+	case strings.Contains(m, "trailing data"):
 		return "trailing"
+	case strings.Contains(m, "did not end after final"):
+		return "no-eof"
 	case strings.Contains(m, "read archive frame"):
 		return "short-frame"
 	}
@@ -120,6 +122,17 @@ func c20FrameErrClass(err error) string {
 }
 
 func (r *c20FramesRunner) Step(t []string, raw string) string {
+	if len(t) >= 4 && t[0] == "framesr" && c20KnownBehaviour(t[1]) {
+		// the same script, the stream delivered through another reader behaviour
+		c20ReaderBehaviour = t[1]
+		defer func() { c20ReaderBehaviour = "plain" }()
+		r.stats.Inc("reader." + t[1])
+		ans := r.Step(append([]string{"frames"}, t[2:]...), raw)
+		if t[1] == "timeout" && strings.HasPrefix(ans, "err") {
+			return "err transient" // which read call hits the transient error is not part of the protocol
+		}
+		return ans
+	}
 	if len(t) < 3 || t[0] != "frames" {
 		return "bad-op"
 	}
@@ -197,7 +210,7 @@ func (r *c20FramesRunner) Step(t []string, raw string) string {
 		}
 		stream.Write(frame)
 	}
-	reader, err := retriever.NewEncryptedArchiveReader(bytes.NewReader(stream.Bytes()), identity)
+	reader, err := retriever.NewEncryptedArchiveReader(c20Reader(stream.Bytes()), identity)
 	if err != nil {
 		return "err setup"
 	}
@@ -252,7 +265,17 @@ func (c20FramesSuite) Gen(rng *Rng, tier string, w *bufio.Writer, stats *Stats) 
 		}
 	}
 	ops = append(ops, "frames B R "+honestB, "frames B R b0 bf", "frames B R b1 b0 bf", "frames B R a0 a1 a2 af", "frames B R b0 b1 af")
+	opsNamed := append([]string{}, ops...)
 	flush("named")
+	// every named attack and the honest streams again under every reader behaviour
+	named := append([]string{}, opsNamed...)
+	for _, beh := range c20Behaviours[1:] {
+		for _, o := range named {
+			ops = append(ops, "framesr "+beh+" "+strings.TrimPrefix(o, "frames "))
+			stats.Inc("gen.reader_scripts")
+		}
+	}
+	flush("named-readers")
 	// exhaustive: every sequence of base frames up to length L under header A with the right key
 	L := 4
 	if thorough {
@@ -321,7 +344,11 @@ func (c20FramesSuite) Gen(rng *Rng, tier string, w *bufio.Writer, stats *Stats) 
 		case 1:
 			toks = append(toks, "t"+Pick(rng, base))
 		}
-		ops = append(ops, strings.TrimSpace(fmt.Sprintf("frames %s %s %s", Pick(rng, []string{"A", "A", "A", "B", "Am"}), Pick(rng, []string{"R", "R", "R", "W"}), strings.Join(toks, " "))))
+		verb := "frames"
+		if rng.Chance(1, 3) {
+			verb = "framesr " + Pick(rng, c20Behaviours[1:])
+		}
+		ops = append(ops, strings.TrimSpace(fmt.Sprintf("%s %s %s %s", verb, Pick(rng, []string{"A", "A", "A", "B", "Am"}), Pick(rng, []string{"R", "R", "R", "W"}), strings.Join(toks, " "))))
 		stats.Inc("gen.random_scripts")
 	}
 	flush("random")
